@@ -14,18 +14,20 @@ Import ListNotations.
 Open Scope R_scope.
 
 (* ---- mixed states: arbitrary matrix rho, sampling weights p(s) > 0 used as the denominator ---- *)
+(* the guard 1 <= n is not needed by the proof (at n = 0 both sides are x/0 = 0 in Coq's totalised division);
+   it is stated so that the theorem is not true for that reason *)
 Theorem C08_sigma_x_unbiased : forall n (rho : bits -> bits -> R * R) (p : bits -> R),
-  (forall s, length s = n -> 0 < p s) ->
+  (1 <= n)%nat -> (forall s, length s = n -> 0 < p s) ->
   sum_bits n (fun s => p s * sigma_x ROps false (mixed_state ROps rho p) s) =
   fst (trace_op n rho (mean_site_op pauliX n)).
-Proof. exact sigma_x_unbiased. Qed.
+Proof. intros n rho p _. exact (sigma_x_unbiased n rho p). Qed.
 Print Assumptions C08_sigma_x_unbiased.
 
 Theorem C08_sigma_y_unbiased : forall n (rho : bits -> bits -> R * R) (p : bits -> R),
-  (forall s, length s = n -> 0 < p s) ->
+  (1 <= n)%nat -> (forall s, length s = n -> 0 < p s) ->
   sum_bits n (fun s => p s * sigma_y ROps false (mixed_state ROps rho p) s) =
   fst (trace_op n rho (mean_site_op pauliY n)).
-Proof. exact sigma_y_unbiased. Qed.
+Proof. intros n rho p _. exact (sigma_y_unbiased n rho p). Qed.
 Print Assumptions C08_sigma_y_unbiased.
 
 Theorem C08_sigma_z_unbiased : forall n (rho : bits -> bits -> R * R) (p : bits -> R),
@@ -35,7 +37,9 @@ Theorem C08_sigma_z_unbiased : forall n (rho : bits -> bits -> R * R) (p : bits 
 Proof. exact sigma_z_unbiased. Qed.
 Print Assumptions C08_sigma_z_unbiased.
 
-(* open chain: (1/n) sum_{i < n-c} Z_i Z_{i+c};  periodic: (1/n) sum_{i<n} Z_i Z_{(i+c) mod n};  all c >= 1 *)
+(* open chain: (1/n) sum_{i < n-c} Z_i Z_{i+c};  periodic: (1/n) sum_{i<n} Z_i Z_{(i+c) mod n};  all c >= 1.
+   (c = 0 and negative c are outside the property: Python's z[:-0] is the empty slice and the product then fails to
+   broadcast for n > 1; the model returns 0 there and no theorem speaks about it.) *)
 Theorem C08_neighbour_open_unbiased : forall n (rho : bits -> bits -> R * R) (p : bits -> R),
   (forall s, length s = n -> fst (rho s s) = p s) ->
   forall c, (1 <= c)%nat ->
@@ -77,17 +81,17 @@ Proof. exact pure_weight_is_projector_weight. Qed.
 Print Assumptions C08_pure_importance_ratio.
 
 Theorem C08_sigma_x_unbiased_pure : forall n (psi : bits -> R * R),
-  (forall s, length s = n -> psi s <> (0, 0)) ->
+  (1 <= n)%nat -> (forall s, length s = n -> psi s <> (0, 0)) ->
   sum_bits n (fun s => pnorm2 psi s * sigma_x ROps false (pure_state psi) s) =
   fst (trace_op n (proj psi) (mean_site_op pauliX n)).
-Proof. exact sigma_x_unbiased_pure. Qed.
+Proof. intros n psi _. exact (sigma_x_unbiased_pure n psi). Qed.
 Print Assumptions C08_sigma_x_unbiased_pure.
 
 Theorem C08_sigma_y_unbiased_pure : forall n (psi : bits -> R * R),
-  (forall s, length s = n -> psi s <> (0, 0)) ->
+  (1 <= n)%nat -> (forall s, length s = n -> psi s <> (0, 0)) ->
   sum_bits n (fun s => pnorm2 psi s * sigma_y ROps false (pure_state psi) s) =
   fst (trace_op n (proj psi) (mean_site_op pauliY n)).
-Proof. exact sigma_y_unbiased_pure. Qed.
+Proof. intros n psi _. exact (sigma_y_unbiased_pure n psi). Qed.
 Print Assumptions C08_sigma_y_unbiased_pure.
 
 Theorem C08_sigma_z_unbiased_pure : forall n (psi : bits -> R * R), (1 <= n)%nat ->
@@ -135,6 +139,7 @@ Proof. exact sigma_xy_unbiased_density_matrix. Qed.
 Print Assumptions C08_sigma_xy_unbiased_density_matrix.
 
 (* ---- absolute=True is the pointwise absolute value of the absolute=False value ---- *)
+(* definitional: restates the model *)
 Theorem C08_absolute_is_pointwise_abs : forall (st : istate) s,
   sigma_x ROps true st s = Rabs (sigma_x ROps false st s) /\
   sigma_y ROps true st s = Rabs (sigma_y ROps false st s) /\
